@@ -171,5 +171,27 @@ theorem envOfUrString_wrong_type (ty : Ur.Text) (data : Bytes) (hty : ty.all Ur.
   have : (ty != envelopeType) = true := by simpa using hne
   simp only [envOfUrString, hp, this, if_true]
 
+
+/-- the UR reader accepts only the canonical text: whatever string `from_ur_string` turns into an envelope is, after
+lower-casing, the very string `UR::string` writes for the type `envelope` and the bytes that were decoded -/
+theorem ur_reader_accepts_only_canonical (s : Ur.Text) (e : Env) (hr : envOfUrString h s = .ok e) :
+    ∃ data c, s.map Ur.lowerAscii = Ur.urString envelopeType data ∧ Cbor.dec data = .ok c ∧ envOfCbor h c = .ok e := by
+  unfold envOfUrString at hr
+  cases hp : Ur.urParse s with
+  | none => simp [hp] at hr
+  | some td =>
+    obtain ⟨ty, data⟩ := td
+    simp only [hp] at hr
+    split at hr
+    · simp at hr
+    · rename_i hty
+      have hty' : ty = envelopeType := by simpa using hty
+      subst hty'
+      cases hd : Cbor.dec data with
+      | error x => simp [hd] at hr
+      | ok c =>
+        simp only [hd] at hr
+        exact ⟨data, c, Ur.urString_of_urParse s _ data hp, hd, hr⟩
+
 end
 end EnvVerif
